@@ -159,10 +159,10 @@ func VerifConnIDs(c *Conn) []string {
 	return out
 }
 
-// VerifRouting classifies the transport's routing table: number of entries per handler
+// VerifRLRouting classifies the transport's routing table: number of entries per handler
 // kind ("conn", "closedLocal", "closedRemote", "other"), reset tokens, and the kind
 // registered for each of the given connection IDs ("none" if absent).
-func VerifRouting(t *Transport, ids []string) (counts map[string]int, resetTokens int, kinds []string) {
+func VerifRLRouting(t *Transport, ids []string) (counts map[string]int, resetTokens int, kinds []string) {
 	counts = map[string]int{}
 	kind := func(h packetHandler) string {
 		switch h.(type) {
